@@ -135,7 +135,10 @@ class Client(object):
 
     def auth(self, negotiate_fd=False, uid=None, begin=True):
         ident = str(self.uid if uid is None else uid).encode().hex().encode()
-        self.send_bytes(b"\0AUTH EXTERNAL " + ident + b"\r\n")
+        try:
+            self.send_bytes(b"\0AUTH EXTERNAL " + ident + b"\r\n")
+        except OSError as e:
+            raise Closed("connection dropped before authentication: %s" % e)
         line = self.read_line()
         if not line.startswith(b"OK "):
             raise Closed("auth rejected: %r" % line)
@@ -145,7 +148,10 @@ class Client(object):
             line = self.read_line()
             self.unix_fd = line.startswith(b"AGREE_UNIX_FD")
         if begin:
-            self.send_bytes(b"BEGIN\r\n")
+            try:
+                self.send_bytes(b"BEGIN\r\n")
+            except OSError as e:
+                raise Closed("connection dropped during authentication: %s" % e)
         return self
 
     # ------------------------------------------------------------------ sending
